@@ -25,8 +25,9 @@ theorem constants_match_source :
     Koreo.Gen.Compare45.extractionOk = true ∧
     (∀ k, Koreo.Gen.Compare45.directiveKeys.contains k = Koreo.directiveKeys.contains k) ∧
     Koreo.Gen.Compare45.lastAppliedAnnotation = lastAppliedAnnotation ∧
-    Koreo.Gen.Compare45.defaultPatchDelay = defaultPatchDelay := by
-  refine ⟨by decide, ?_, by decide, by decide⟩
+    Koreo.Gen.Compare45.defaultPatchDelay = defaultPatchDelay ∧
+    Koreo.Gen.Compare45.loadRetryDelay = loadRetryDelay := by
+  refine ⟨by decide, ?_, by decide, by decide, by decide⟩
   intro k
   simp only [Koreo.Gen.Compare45.directiveKeys, Koreo.directiveKeys, compareAsSet, compareAsMap,
     compareLastApplied, List.contains_cons, List.contains_nil, Bool.or_false]
